@@ -413,7 +413,17 @@ def extract_unit(u: Unit, rewrite_log: list) -> List[Piece]:
             # closure's parameter list (e.g. ".any(|p|"); the body runs to the parenthesis closing that call, whatever
             # the formatting (one line, several lines, braced or not)
             pat = u.anchor[len("@closure:"):]
-            k = find_unique(m, pat, u.name, lo, hi)
+            nth = re.match(r"#(\d+):", pat)   # "@closure:#2:<text>" = the 2nd occurrence of <text> (same closure header used twice)
+            if nth:
+                pat = pat[nth.end():]
+                k, pos = -1, lo
+                for _ in range(int(nth.group(1))):
+                    k = m.find(pat, pos, hi)
+                    if k < 0:
+                        raise LostAnchor("%s: anchor not found (occurrence %s): %r" % (u.name, nth.group(1), pat))
+                    pos = k + 1
+            else:
+                k = find_unique(m, pat, u.name, lo, hi)
             # the call whose argument the closure is: the innermost parenthesis still open at the closure's first `|`
             stack = []
             for ci, ch in enumerate(pat[:pat.index("|")]):
